@@ -62,3 +62,24 @@ Example C13_pentagon_triangles :
   (f' 1 1, f' 1 2, f' 1 6) = (2, 6, 1) /\ (f' 1 7, f' 1 3, f' 1 8) = (3, 8, 7) /\ (f' 1 9, f' 1 4, f' 1 5) = (4, 5, 9) /\
   (f' 2 6, f' 2 7, f' 2 8, f' 2 9) = (7, 6, 9, 8).
 Proof. vm_compute. repeat split. Qed.
+
+(** the same for the two public entry points (what precedes the fan only reads): [fan_convex_cell] fans from the face's
+    own dart; [fan_cell] from the dart its star search returns *)
+Theorem C13_fan_convex_cell_leaves_triangles `{Sig} : forall E n ks p0 nds C c w cnt w' cnt',
+  chain (beta w) p0 C -> beta w 0 p0 = last C p0 -> beta w 1 (last C p0) = p0 ->
+  length C = (length (chunks2 nds) + 2)%nat -> NoDup (p0 :: C ++ flat (chunks2 nds)) ->
+  run E (fan_convex_cell n ks p0 nds) c w cnt = (Done tt, w', cnt') ->
+  fan_tri (beta w') p0 C (chunks2 nds) /\
+  (forall i d, ~ In d (p0 :: C ++ flat (chunks2 nds)) -> beta w' i d = beta w i d).
+Proof. exact fan_convex_cell_triangulates. Qed.
+Print Assumptions C13_fan_convex_cell_leaves_triangles.
+
+Theorem C13_fan_cell_leaves_triangles `{Sig} : forall E n ks f nds c w cnt w' cnt',
+  run E (fan_cell n ks f nds) c w cnt = (Done tt, w', cnt') ->
+  exists p0, forall C,
+    chain (beta w) p0 C -> beta w 0 p0 = last C p0 -> beta w 1 (last C p0) = p0 ->
+    length C = (length (chunks2 nds) + 2)%nat -> NoDup (p0 :: C ++ flat (chunks2 nds)) ->
+    fan_tri (beta w') p0 C (chunks2 nds) /\
+    (forall i d, ~ In d (p0 :: C ++ flat (chunks2 nds)) -> beta w' i d = beta w i d).
+Proof. exact fan_cell_triangulates. Qed.
+Print Assumptions C13_fan_cell_leaves_triangles.
